@@ -2,6 +2,7 @@ package rules
 
 import (
 	"fmt"
+	"go/token"
 	"go/types"
 	"sort"
 	"strings"
@@ -78,10 +79,11 @@ func helperFuncs(p *load.Program) []*ssa.Function {
 
 func runC08(c *core.Ctx) {
 	runFixtures(c, "drop")
-	c.Explain("Structural clauses of C08 decided from source for every package-level helper of hackpadfs whose first parameter is an FS or a File (and the unexported functions only they reach): (R08.1) for every call that returns an error — other helpers, interface methods, File methods — on every path on which that error is non-nil the helper returns it, wraps it, hands it on, returns another definitely non-nil error, or consumes it through an enumerated idiom (errors.Is(ErrNotExist) inside RemoveAll's recursion, errors.Is(ErrExist) inside MkdirAll, errors.Is(ErrNotImplemented) to try the next capability, closing a read-only handle); a nil/may-be-nil return on such a path is a violation ('a helper never reports success for work that was not done'); (R08.3) the path on which every capability assertion of a helper failed returns a *PathError/*LinkError carrying ErrNotImplemented or enters the documented fallback; (R08.4, contradiction rule) inside one helper all calls of the same fallible callee consult the same sentinels (errors.Is) on its error — if one Mkdir site tolerates ErrExist and another returns it, the fallback answers 'already there' differently from the optimised implementation. NOT claimed: equality of results and final state between the optimised path and the fallback across the 2^k capability subsets.")
+	c.Explain("Structural clauses of C08 decided from source for every package-level helper of hackpadfs whose first parameter is an FS or a File (and the unexported functions only they reach): (R08.1) for every call that returns an error — other helpers, interface methods, File methods — on every path on which that error is non-nil the helper returns it, wraps it, hands it on, returns another definitely non-nil error, or consumes it through an enumerated idiom (errors.Is(ErrNotExist) inside RemoveAll's recursion, errors.Is(ErrExist) inside MkdirAll, errors.Is(ErrNotImplemented) to try the next capability, closing a read-only handle); a nil/may-be-nil return on such a path is a violation ('a helper never reports success for work that was not done'); (R08.3) the path on which every capability assertion of a helper failed returns a *PathError/*LinkError carrying ErrNotImplemented or enters the documented fallback; (R08.4, contradiction rule) inside one helper all calls of the same fallible callee consult the same sentinels (errors.Is) on its error — if one Mkdir site tolerates ErrExist and another returns it, the fallback answers 'already there' differently from the optimised implementation; (R08.5, sibling agreement) a mode/flag/perm/time parameter of a helper reaches every delegate that receives it as the parameter itself — a branch that passes 'mode & K' where its siblings pass 'mode' makes the result depend on the capability subset. NOT claimed: equality of results and final state between the optimised path and the fallback across the 2^k capability subsets.")
 	c.Assume("A1: interface-dispatched FS/File methods return nil error only when the operation was done", "A6: partial correctness")
 	c.RuleDoc("R08.1", "no primitive error dropped on any failing path of a helper")
 	c.RuleDoc("R08.4", "sibling calls of one callee inside a helper consult the same sentinels")
+	c.RuleDoc("R08.5", "a non-name parameter reaches every delegate of a helper in the same form")
 	c.RuleDoc("R08.3", "all-capabilities-missing path returns ErrNotImplemented or enters the fallback")
 	for _, p := range c.Progs {
 		c.SetProg(p)
@@ -142,10 +144,12 @@ func runC08(c *core.Ctx) {
 		}
 		r08NotImplemented(c, p, helpers)
 		r08Siblings(c, p, list)
+		r08ParamForms(c, p, helpers)
 	}
 	c.Floor("R08.1", 40)
 	c.Floor("R08.3", 25)
 	c.Floor("R08.4", 2)
+	c.Floor("R08.5", 10)
 }
 
 // r08NotImplemented: (also R05.4) in each helper, the return reached when every type assertion failed.
@@ -281,4 +285,92 @@ func valueOfInstr(i ssa.Instruction) ssa.Value {
 		return v
 	}
 	return nil
+}
+
+// r08ParamForms (R08.5, sibling agreement): inside one helper every delegate that receives a value computed from
+// a non-name parameter (mode, flag, perm, times, uid…) receives the parameter itself. If one capability branch
+// passes `mode` and the fallback passes `mode & K`, the result depends on which interfaces the file system has.
+func r08ParamForms(c *core.Ctx, p *load.Program, helpers []*ssa.Function) {
+	for _, fn := range helpers {
+		for pi, prm := range fn.Params {
+			if pi == 0 || isStr(prm.Type()) {
+				continue
+			}
+			if _, isI := prm.Type().Underlying().(*types.Interface); isI {
+				continue
+			}
+			if _, isS := prm.Type().Underlying().(*types.Slice); isS {
+				continue
+			}
+			var derivesFrom func(v ssa.Value, d int) bool
+			derivesFrom = func(v ssa.Value, d int) bool {
+				if d > 6 {
+					return false
+				}
+				switch x := v.(type) {
+				case *ssa.Parameter:
+					return x == prm
+				case *ssa.BinOp:
+					return derivesFrom(x.X, d+1) || derivesFrom(x.Y, d+1)
+				case *ssa.UnOp:
+					return x.Op != token.MUL && derivesFrom(x.X, d+1)
+				case *ssa.Convert:
+					return derivesFrom(x.X, d+1)
+				case *ssa.ChangeType:
+					return derivesFrom(x.X, d+1)
+				case *ssa.Phi:
+					for _, e := range x.Edges {
+						if derivesFrom(e, d+1) {
+							return true
+						}
+					}
+				}
+				return false
+			}
+			type site struct {
+				cl       *ssa.Call
+				modified bool
+			}
+			var sites []site
+			ssax.InstrsDeep(fn, func(f *ssa.Function, ins ssa.Instruction) {
+				cl, ok := ins.(*ssa.Call)
+				if !ok {
+					return
+				}
+				if !cl.Call.IsInvoke() {
+					callee := ssax.StaticCallee(cl)
+					if callee == nil || !p.InModule(callee) {
+						return
+					}
+				}
+				for _, a := range cl.Call.Args {
+					if !types.Identical(a.Type(), prm.Type()) {
+						continue
+					}
+					if a == ssa.Value(prm) {
+						sites = append(sites, site{cl, false})
+					} else if derivesFrom(a, 0) {
+						sites = append(sites, site{cl, true})
+					}
+				}
+			})
+			if len(sites) < 2 {
+				continue
+			}
+			plain := 0
+			for _, s := range sites {
+				if !s.modified {
+					plain++
+				}
+			}
+			for i, s := range sites {
+				key := fmt.Sprintf("%s|param:%s#%d", fname(fn), prm.Name(), i+1)
+				if s.modified && plain > 0 {
+					c.Bad("R08.5", key, p.Pos(s.cl.Pos()), fmt.Sprintf("%s passes a value computed from its parameter %s to %s while %d sibling delegation(s) pass %s itself: the outcome (e.g. which mode bits are set) depends on which optional interfaces the file system implements", fname(fn), prm.Name(), ssax.CallName(s.cl), plain, prm.Name()))
+				} else {
+					c.OK("R08.5", key, p.Pos(s.cl.Pos()), "the parameter reaches every delegate in the same form")
+				}
+			}
+		}
+	}
 }
